@@ -48,7 +48,7 @@ func runACME(c *hl.Ctx, mine func() bool) {
 			pan, msg, st := hl.TryStack(func() {
 				signed, left, err := acme.VerifSignContent(ac.key, []string{"nonce-1", "nonce-2"}, payload)
 				if err != nil {
-					c.Violation("acme/sign", fmt.Sprintf("signContent with account key %s, content %d octets: %v", ac.name, n, err), cs)
+					viol(c, "acme/sign", fmt.Sprintf("signContent with account key %s, content %d octets: %v", ac.name, n, err), cs)
 					return
 				}
 				ser := signed.FullSerialize() // what jws.post sends
@@ -59,7 +59,7 @@ func runACME(c *hl.Ctx, mine func() bool) {
 				}
 				p, _ := jose.ParseSigned(ser)
 				if got := p.Signatures[0].Header.Nonce; got != "nonce-2" || len(left) != 1 || left[0] != "nonce-1" {
-					c.Violation("acme/nonce", fmt.Sprintf("signContent with nonce pool [nonce-1 nonce-2]: protected nonce %q, pool left %v; expected the last nonce to be consumed and carried in the protected header", got, left), vc)
+					viol(c, "acme/nonce", fmt.Sprintf("signContent with nonce pool [nonce-1 nonce-2]: protected nonce %q, pool left %v; expected the last nonce to be consumed and carried in the protected header", got, left), vc)
 					return
 				}
 				c.Nontrivial(fmt.Sprintf("acme/sign/%s/%d", ac.name, n))
@@ -72,7 +72,7 @@ func runACME(c *hl.Ctx, mine func() bool) {
 				}
 			})
 			if pan {
-				c.Violation("panic/"+panicSite(st), fmt.Sprintf("acme signContent %s: %s", ac.name, msg), cs)
+				viol(c, "panic/"+panicSite(st), fmt.Sprintf("acme signContent %s: %s", ac.name, msg), cs)
 			}
 		}
 		// key authorization = token "." base64url(SHA-256 thumbprint)
@@ -87,18 +87,18 @@ func runACME(c *hl.Ctx, mine func() bool) {
 				in, _ := refThumbprintInput(ac.key)
 				want := token + "." + joseref.B64(joseref.Digest(256, []byte(in)))
 				if err != nil || got != want {
-					c.Violation("acme/key-authorization", fmt.Sprintf("getKeyAuthorization(%q, %s) = %q err=%v; RFC 8555 8.1 / RFC 7638: %q (thumbprint input %s)", token, ac.name, got, err, want, short(in)), cs)
+					viol(c, "acme/key-authorization", fmt.Sprintf("getKeyAuthorization(%q, %s) = %q err=%v; RFC 8555 8.1 / RFC 7638: %q (thumbprint input %s)", token, ac.name, got, err, want, short(in)), cs)
 					return
 				}
 				j := acme.VerifKeyAsJWK(pub)
 				if j == nil || !keyEqual(j.Key, pub) {
-					c.Violation("acme/key-as-jwk", fmt.Sprintf("keyAsJWK(%s) does not hold the public key", ac.name), cs)
+					viol(c, "acme/key-as-jwk", fmt.Sprintf("keyAsJWK(%s) does not hold the public key", ac.name), cs)
 					return
 				}
 				c.Nontrivial(fmt.Sprintf("acme/keyauth/%s/%s", ac.name, token))
 			})
 			if pan {
-				c.Violation("panic/"+panicSite(st), fmt.Sprintf("acme getKeyAuthorization %s: %s", ac.name, msg), cs)
+				viol(c, "panic/"+panicSite(st), fmt.Sprintf("acme getKeyAuthorization %s: %s", ac.name, msg), cs)
 			}
 		}
 	}
